@@ -1500,7 +1500,10 @@ func main() {
 	runImages()
 	runTall()
 	runHintValues()
+	runCallbackHints()
 	runRSS14()
+	runRSS14Distorted()
+	runMultiSymbol()
 	chk.Finish()
 }
 
@@ -1554,6 +1557,7 @@ func replay() {
 	case "hint-value":
 		fmt.Println("replay of a hint-value case re-runs the whole hint-value family (the hint value is not serialisable in general)")
 		runHintValues()
+		runCallbackHints()
 	default:
 		fmt.Println("replay of kind", c.Kind, "is re-run through the full check")
 	}
